@@ -576,6 +576,81 @@ theorem update_frame (fold : Str → Str → Bool) (st : State) (s : Signer) (a 
     rw [hst]
     exact execUpdate_clients (by simpa [exec] using hx) b h
 
+/-! ### start from a genesis document: the validated sections own the reserved keys -/
+
+/-- value written last for key `k` by a list of writes (`d` if none). -/
+def lastW {α : Type} (key : α → Str × GKey) (val : α → GVal) : List α → Str × GKey → Option GVal → Option GVal
+  | [], _, d => d
+  | x :: rest, k, d => lastW key val rest k (if key x = k then some (val x) else d)
+
+theorem cget_cset (s : CStore) (k k' : Str × GKey) (v : GVal) :
+    cget (cset s k' v) k = if k' = k then some v else cget s k := by
+  simp [cset, cget]
+
+theorem cget_foldl {α : Type} (key : α → Str × GKey) (val : α → GVal) (l : List α) (s0 : CStore) (k : Str × GKey) :
+    cget (l.foldl (fun s x => cset s (key x) (val x)) s0) k = lastW key val l k (cget s0 k) := by
+  induction l generalizing s0 with
+  | nil => rfl
+  | cons x rest ih =>
+    simp only [List.foldl_cons, lastW]
+    rw [ih, cget_cset]
+
+theorem lastW_default {α : Type} (key : α → Str × GKey) (val : α → GVal) (l : List α) (k : Str × GKey) (d : Option GVal) :
+    lastW key val l k d = (match lastW key val l k none with | some v => some v | none => d) := by
+  induction l generalizing d with
+  | nil => cases d <;> rfl
+  | cons x rest ih =>
+    simp only [lastW]
+    by_cases h : key x = k
+    · simp only [h, ↓reduceIte]
+      rw [ih (some (val x))]
+      cases lastW key val rest k none <;> rfl
+    · simp only [h, ↓reduceIte]
+      exact ih d
+
+theorem lastW_untouched {α : Type} (key : α → Str × GKey) (val : α → GVal) (l : List α) (k : Str × GKey) (d : Option GVal)
+    (h : ∀ x ∈ l, key x ≠ k) : lastW key val l k d = d := by
+  induction l generalizing d with
+  | nil => rfl
+  | cons x rest ih =>
+    simp only [lastW, h x (by simp), ↓reduceIte]
+    exact ih d (fun y hy => h y (List.mem_cons_of_mem _ hy))
+
+/-- the client state the `clients` section lists LAST for a chain. -/
+def lastClient (d : GenDoc) (ch : Str) : Option GVal :=
+  lastW (fun (c : Str × Client × Bool) => (c.1, GKey.clientState)) (fun c => GVal.client c.2.1) d.clients (ch, .clientState) none
+
+/-- **The clients section wins**: after the import, the client state read back for a chain listed in the `clients`
+section is exactly that section's — whatever `clients_metadata` holds under the reserved key `clientState` (or any
+other key), whatever the consensus section holds. Who is configured (the TSS account of a TSS client) is what was
+VALIDATED. -/
+theorem import_clients_section_wins (d : GenDoc) (ch : Str) (v : GVal) (h : lastClient d ch = some v) :
+    cget (importStore d) (ch, .clientState) = some v := by
+  unfold importStore
+  simp only
+  rw [cget_foldl (fun (c : Str × Nat × Nat) => (c.1, GKey.consensus c.2.1)) (fun c => GVal.cons c.2.2)]
+  rw [lastW_untouched _ _ _ _ _ (by intro x _ hx; cases hx)]
+  rw [cget_foldl (fun (c : Str × Client × Bool) => (c.1, GKey.clientState)) (fun c => GVal.client c.2.1)]
+  rw [lastW_default]
+  unfold lastClient at h
+  rw [h]
+
+/-- the same for the consensus states the `clients_consensus` section lists: metadata under `consensusStates/<h>`
+for a LISTED height is overwritten. (Metadata under a reserved consensus key of an UNLISTED height survives the
+import — that is how the code behaves, see docs/C06.md.) -/
+theorem import_consensus_section_wins (d : GenDoc) (ch : Str) (hgt : Nat) (v : GVal)
+    (h : lastW (fun (c : Str × Nat × Nat) => (c.1, GKey.consensus c.2.1)) (fun c => GVal.cons c.2.2) d.consensus
+          (ch, .consensus hgt) none = some v) :
+    cget (importStore d) (ch, .consensus hgt) = some v := by
+  unfold importStore
+  simp only
+  rw [cget_foldl (fun (c : Str × Nat × Nat) => (c.1, GKey.consensus c.2.1)) (fun c => GVal.cons c.2.2)]
+  rw [lastW_default, h]
+
+/-- a document that does not validate starts nothing. -/
+theorem invalid_document_starts_nothing (st : State) (d : GenDoc) (h : d.valid = false) : startFrom st d = (st, false) := by
+  simp [startFrom, h]
+
 /-! ### restarts -/
 
 /-- erase the restarts of a history -/
